@@ -303,9 +303,9 @@ def nl_sink_options(db):
     return found
 
 
-def rule_nl_max_guard(ctx):
+def rule_nl_max_guard(ctx, rid="nl-max-guard"):
     db = ctx.db
-    r = ctx.rule("nl-max-guard", "every unsigned option that reaches a newline-count sink (SetNlCount, blank_line_set, newline_min_after) is "
+    r = ctx.rule(rid, "every unsigned option that reaches a newline-count sink (SetNlCount, blank_line_set, newline_min_after) is "
                  "compared with nl_max in too_big_for_nl_max(); in main that check follows every option store (config file and --set) and "
                  "precedes every source read; a violation exits with EX_CONFIG")
     t = db.fn("too_big_for_nl_max", file="src/too_big_for_nl_max.cpp")
